@@ -328,7 +328,9 @@ fn cli_one(ctx: &mut Ctx, case: &StaticCase, file: &std::path::Path, prob: &str,
     });
     let exp_too_costly = crate::props::static_eval::exp_cost(&case.abs) > 2000;
     for enc in [None, Some("aux_var"), Some("exp"), Some("hybrid")] {
-        for ext in [None, Some(msat_p.as_str()), Some("kissat")] {
+        // "launcher": the external solver is started through `timeout 60 <msat> vsplit=1`, i.e. with
+        // several --external-sat-solver-opt values that must all reach the process, in order
+        for ext in [None, Some(msat_p.as_str()), Some("kissat"), Some("launcher")] {
             for cert in [false, true] {
                 if ext.is_some() && cert && enc.is_some() {
                     continue; // keep the number of processes moderate
@@ -343,9 +345,17 @@ fn cli_one(ctx: &mut Ctx, case: &StaticCase, file: &std::path::Path, prob: &str,
                     cmd.args(["--encoding", e]);
                 }
                 if let Some(x) = ext {
-                    cmd.args(["--external-sat-solver", x]);
-                    if x == "kissat" {
-                        cmd.args(["--external-sat-solver-opt=-q"]);
+                    if x == "launcher" {
+                        if enc.is_some() || cert {
+                            continue;
+                        }
+                        cmd.args(["--external-sat-solver", "timeout"]);
+                        cmd.args(["--external-sat-solver-opt", "60", "--external-sat-solver-opt", &msat_p, "--external-sat-solver-opt", "vsplit=1"]);
+                    } else {
+                        cmd.args(["--external-sat-solver", x]);
+                        if x == "kissat" {
+                            cmd.args(["--external-sat-solver-opt=-q"]);
+                        }
                     }
                 }
                 if cert {
@@ -402,6 +412,74 @@ fn cli_one(ctx: &mut Ctx, case: &StaticCase, file: &std::path::Path, prob: &str,
     ctx.nontrivial(gen::case_hash(&case.abs, &["cli", &s]));
 }
 
+/// Order and repetition on *dynamic* solver objects: the framework is loaded through updates, then
+/// a random sequence of queries (both kinds where supported, with and without certificate, with
+/// repetitions, no update in between) must each agree with the oracle.
+fn order_dynamic(ctx: &mut Ctx, case: &StaticCase, rng: &mut Rng) {
+    use crate::present::Op;
+    use crate::props::dynamic::{make_solver, DynKind};
+    if case.abs.n == 0 || case.abs.n > 9 {
+        return;
+    }
+    let rs = match crate::refsem::RefSem::new(&case.abs) {
+        Ok(r) => r,
+        Err(_) => return,
+    };
+    let kinds = [DynKind::Co, DynKind::St, DynKind::Pr, DynKind::CoAtt(2.0), DynKind::StAtt(1.5)];
+    let kind = kinds[rng.below(kinds.len())].clone();
+    let h = monitor::new_handle();
+    h.borrow_mut().cap = Some(100_000);
+    let mut solver = match make_solver(&kind, h.clone(), Backend::Cadical) {
+        Ok(s) => s,
+        Err(_) => return,
+    };
+    for a in 0..case.abs.n {
+        if !matches!(solver.update(&Op::AddArg(a + 1)), Ok(Ok(()))) {
+            return;
+        }
+    }
+    for (a, b) in case.abs.att_set() {
+        if !matches!(solver.update(&Op::AddAtt(a + 1, b + 1)), Ok(Ok(()))) {
+            return;
+        }
+    }
+    let mut history: Vec<Value> = Vec::new();
+    for _ in 0..rng.range(4, 14) {
+        let cred = match (kind.dc_sem(), kind.ds_sem()) {
+            (Some(_), Some(_)) => rng.pct(50),
+            (Some(_), None) => true,
+            _ => false,
+        };
+        let sem = if cred { kind.dc_sem().unwrap() } else { kind.ds_sem().unwrap() };
+        let a = rng.below(case.abs.n);
+        let cert = rng.pct(50);
+        history.push(json!([if cred { "dc" } else { "ds" }, a, cert]));
+        ctx.eval();
+        ctx.count("order/queries-on-reused-dynamic-object");
+        let exp = if cred { rs.cred(sem, 1 << a) } else { rs.skep(sem, 1 << a) };
+        match solver.query(cred, a + 1, cert) {
+            Ok((st, _)) => {
+                if st != exp {
+                    ctx.violation(
+                        &format!("C06/answer-depends-on-earlier-queries/{}", kind.name()),
+                        json!({"solver_type": kind.name(), "sequence": history, "expected": exp, "observed": st}),
+                        &case.to_json(),
+                    );
+                    return;
+                }
+            }
+            Err(p) => {
+                ctx.violation(
+                    &format!("C06/reused-object-fails/{}", kind.name()),
+                    json!({"solver_type": kind.name(), "sequence": history, "panic": p.to_json()}),
+                    &case.to_json(),
+                );
+                return;
+            }
+        }
+    }
+}
+
 fn eval(ctx: &mut Ctx, case: &StaticCase, rng: &mut Rng, mode: &str, focus: Option<&Value>) {
     let mut oracle = match Oracle::for_graph(&case.abs) {
         Ok(o) => o,
@@ -423,6 +501,9 @@ fn eval(ctx: &mut Ctx, case: &StaticCase, rng: &mut Rng, mode: &str, focus: Opti
         }
     }
     ctx.count(&format!("cases/{}", mode));
+    if mode == "order" {
+        order_dynamic(ctx, case, rng);
+    }
     if mode == "cli" {
         cli(ctx, case, rng, focus);
         return;
